@@ -529,13 +529,29 @@ def check_style_copy(task):
                 b = FAMILIES[fam]()
                 b.style.update(o.style.as_dict())
                 return b.style
+            if how.endswith("_nodes"):   # the style NODES (sub-objects) of o given as values: a natural "take over that part" idiom
+                nodes = {k[1:]: v for k, v in vars(o.style).items() if k.startswith("_") and hasattr(v, "as_dict") and hasattr(v, "update")}
+                if how == "assign_nodes":
+                    b = FAMILIES[fam]()
+                    for k, v in nodes.items():
+                        setattr(b.style, k, v)
+                    return b.style
+                if how == "ctor_nodes":
+                    return FAMILIES[fam](**{"style_" + k: v for k, v in nodes.items()}).style
+                if how == "update_nodes":
+                    b = FAMILIES[fam]()
+                    b.style.update(**nodes)
+                    return b.style
+                if how == "copykw_nodes":
+                    return o.copy(**{"style_" + k: v for k, v in nodes.items()}).style
             if how == "same_data_list":   # the same user list of traces given to two objects
                 b = FAMILIES[fam]()
                 b.style.model3d.data = o.style.model3d.data
                 return b.style
             raise AssertionError(how)
 
-        for how in ("style.copy", "get_style", "obj.copy.style", "ctor_as_dict", "setter_as_dict", "update_as_dict", "same_data_list"):
+        for how in ("style.copy", "get_style", "obj.copy.style", "ctor_as_dict", "setter_as_dict", "update_as_dict", "same_data_list",
+                    "assign_nodes", "ctor_nodes", "update_nodes", "copykw_nodes"):
             o = mk()
             before = norm(o.style.as_dict())
             dbefore = norm(lin(DS().as_dict()))
